@@ -1,6 +1,7 @@
 SPECIFICATION Spec
 CONSTANTS Routers <- QuickRouters
           Actors <- AllActors
+          ExtraActors = {"op1", "op4"}
           CtxDepth = 2
           EmitOn = FALSE
 INVARIANT PropC18
